@@ -19,6 +19,7 @@ from fractions import Fraction
 
 import numpy as np
 
+from . import c11_fews as W
 from . import c11_more as M
 from . import c11_pi as P
 from .c11_pi import call, dtm, sec, xv
@@ -819,6 +820,9 @@ def run(c):
         "generated PI stores (1-12 stamps, steps incl. 7 h / 25 h, nonequidistant, forecast anywhere, 1-3 members, "
         "qualifiers, NaN patterns, inf) written and re-read through pi.Timeseries (XML, binary); hand-made PI files "
         "(per-series ranges, virtual ensembles, missVal kinds, forecast off-grid/days away, short streams); "
+        "third-party PI files (binary: header-only XML + .bin with float32(missVal) / NaN at the missing samples; XML: missVal "
+        "text; missVal per series, representable in float32 or not: -999, -999.9, -999.99, -9999.9, 0.1, 1e10, NaN …; padded "
+        "series; full / virtual ensembles) read -> write -> read; "
         "resize sequences; CSV, NetCDF, ParameterConfig, DataConfig round trips.  distinct = (stream, format, "
         "sizes, ensemble layout, forecast kind, window offsets) tuples"
     )
@@ -833,6 +837,11 @@ def run(c):
         "a first PI header without forecastDate fixes the forecast to its own start and a later, different "
         "forecastDate is rejected (order dependent; modelled, outside the property)",
         "stamps are whole seconds; variable / location / parameter ids contain no ':'",
+        "Hdr.miss of the record-level model is the missVal in the storage type of the array it is compared with "
+        "(float32(missVal) for binary files: numpy compares a float32 array with a Python float in float32); the harness "
+        "performs that conversion for the model, the oracle of the third-party stream does not use it",
+        "binary re-write of an object read from a file is exercised only for files whose series are in member order and "
+        "have no series without member index (two defects of the update path of write() reported to the coordinator)",
         "ParameterConfig.set of a bool into a dblValue stores 'True', which get cannot parse: not modelled (not generated)",
     ]
     c.notes.append(
@@ -855,6 +864,7 @@ def run(c):
     try:
         stream_roundtrip(c, c.n(120, 4000), tmp)
         stream_reader(c, c.n(160, 5000), tmp)
+        W.stream_thirdparty(c, c.n(120, 3000), tmp)
         stream_resize(c, c.n(100, 3000), tmp)
         stream_ops(c, c.n(100, 3000), tmp)
         M.stream_rewrite(c, c.n(40, 1200), tmp, gen_store)
